@@ -1,7 +1,7 @@
 ----------------------------- MODULE NetList_MC -----------------------------
 (* Exhaustive comparison of the coded table with the declarative one, and the *)
 (* stimulus generator for the replay into the real code (STIM lines).         *)
-EXTENDS NetList, TLC
+EXTENDS NetList, TLC, Json
 CONSTANTS U, Labels, MaxRanges, Emit, Pick
 Range == [s : 0..U, e : 0..U, v : Labels]
 Lists == UNION {[1..n -> Range] : n \in 0..MaxRanges}
@@ -24,5 +24,5 @@ Inv_TouchingAccepted ==
 Weight(x) == LET RECURSIVE W(_)
                  W(i) == IF i > Len(x) THEN 0 ELSE x[i].s * 7 + x[i].e * 3 + i + W(i + 1)
              IN W(1)
-EmitStim == (Emit /\ Weight(rs) % 5 = Pick) => PrintT(<<"STIM", rs>>)
+EmitStim == (Emit /\ Weight(rs) % 5 = Pick) => PrintT(<<"STIM", ToJson(rs)>>)
 =============================================================================
